@@ -98,7 +98,7 @@ def run(ctx):
         ok = bool(ev) and all(any("drop_fungible_bucket" in x for x in s_) for s_ in ev)
         ctx.ob("burn|event-amount-is-the-dropped-amount", ok, "the Burn event amount originates from the dropped bucket", b.loc())
     EMPTY_ONLY = {"drop_empty_bucket": "drops a bucket only on the amount.is_zero() arm (decided by C09): the supply does not change"}
-    entries = sorted(nm for nm in meths if nm not in called and trans(nm, drops) and nm.rsplit("::", 1)[1] not in EMPTY_ONLY)
+    entries = sorted(nm for nm in meths if nm not in called and trans(nm, drops) and nm.rsplit("::", 1)[-1] not in EMPTY_ONLY)
     for k_, why in EMPTY_ONLY.items():
         ctx.note(f"burn entry-point exception {k_}: {why}")
     ctx.floor("burn|entry-points", len(entries), 2)
